@@ -19,7 +19,7 @@ package mirror
 //@ func (IPv4).SetLen
 //@   requires len(b) >= 4
 //@   ensures b[2]*256 + b[3] == (20 + n % 65536) % 65536 && len(b) == old(len(b))
-//@   ensures forall k :: 0 <= k && k < len(b) && k != 2 && k != 3 ==> b[k] == old(b[k])
+//@   ensures b.off == old(b.off) && (forall q :: q != b.off + 2 && q != b.off + 3 ==> b.arr[q] == old(b.arr)[q])
 //@   modifies contents(b)
 
 // source and destination are written in their 4-octet form
@@ -30,7 +30,7 @@ package mirror
 //@   ensures len(b) == old(len(b))
 //@   ensures [src] isV4(src) ==> b[12] == v4octet(src, 0) && b[13] == v4octet(src, 1) && b[14] == v4octet(src, 2) && b[15] == v4octet(src, 3)
 //@   ensures [dst] isV4(dst) ==> b[16] == v4octet(dst, 0) && b[17] == v4octet(dst, 1) && b[18] == v4octet(dst, 2) && b[19] == v4octet(dst, 3)
-//@   ensures forall k :: 0 <= k && k < len(b) && (k < 12 || k >= 20) ==> b[k] == old(b[k])
+//@   ensures b.off == old(b.off) && (forall q :: (q < b.off + 12 || q >= b.off + 20) ==> b.arr[q] == old(b.arr)[q])
 //@   modifies contents(b)
 
 //@ func (IPv6).Marshal
@@ -51,7 +51,7 @@ package mirror
 //@ func (*UDP).SetLen
 //@   requires len(b) >= 6
 //@   ensures b[4]*256 + b[5] == (8 + n) % 65536 && len(b) == old(len(b))
-//@   ensures forall k :: 0 <= k && k < len(b) && k != 4 && k != 5 ==> b[k] == old(b[k])
+//@   ensures b.off == old(b.off) && (forall q :: q != b.off + 4 && q != b.off + 5 ==> b.arr[q] == old(b.arr)[q])
 //@   modifies contents(b)
 
 //@ func (*UDP).SetChecksum
